@@ -1,6 +1,6 @@
 (* C15_Check.v — correspondence checker for C15: evaluates the model on the inputs the
    implementation ran, and the specification on the outputs the implementation produced. *)
-From Verif Require Export Base C15_Model C15_Scan.
+From Verif Require Export Base C15_Model C15_Scan C15_Fill.
 Open Scope Z_scope.
 
 Definition rows_eqb := zzlist_eqb.
@@ -42,7 +42,10 @@ Record case := mk_case {
   (* sibling chains of a reusable parent carrying three tie orderings: + Order(id), + Order(id desc) *)
   o_sibasc : list row; o_sibdesc : list row;
   (* Find through gorm's own LIMIT / OFFSET rendering (not run when the statement is not valid SQLite) *)
-  g_run : bool; o_gfind : list row
+  g_run : bool; o_gfind : list row;
+  (* the chain under a Select list ((reported name, source column); [] = no Select) read into a slice
+     of structs and into a slice of maps: every record field by field, every map entry by entry *)
+  c_sel : sel; o_srecs : list assoc; o_mrecs : list assoc
 }.
 
 Definition has_lops (c : case) := match c_lops c with [] => false | _ => true end.
@@ -214,6 +217,44 @@ Definition more_spec_holds (c : case) : bool :=
       | _ => true
       end).
 
+(* ---- one record / one map from one driver row (C15_Fill) ---- *)
+Definition val_eqb (a b : val) : bool := option_eqb Z.eqb a b.
+Definition entry_eqb (a b : string * val) : bool := String.eqb (fst a) (fst b) && val_eqb (snd a) (snd b).
+Definition assoc_eqb := list_eqb entry_eqb.
+(* maps have no order: entry-wise inclusion both ways *)
+Definition assoc_sub (a b : assoc) : bool :=
+  forallb (fun kv => option_eqb val_eqb (get_key (fst kv) b) (Some (snd kv))) a.
+Definition assoc_equiv (a b : assoc) : bool :=
+  assoc_sub a b && assoc_sub b a && (length a =? length b)%nat.
+Definition fill_model_agrees (c : case) : bool :=
+  let f := find (c_tbl c) (c_cond c) (c_ord c) (st_of (apply_lops (c_lops c))) in
+  list_eqb assoc_eqb (o_srecs c) (struct_recs (c_sel c) f)
+  && list_eqb assoc_equiv (o_mrecs c) (map_recs (c_sel c) f)
+  && list_eqb val_eqb (map Some (o_pluck_id c)) (plucked "id" f)
+  && list_eqb val_eqb (map Some (o_pluck_v c)) (plucked "v" f).
+(* the property on what gorm returned: the struct read and the map read of one statement deliver
+   one record per row Find returns and agree on every column - a column that names a field shows the
+   same value in the record and in the map (a plain field shows NULL as zero), a field that no
+   column names is zero / nil in a fresh record; without a Select both show the table's row *)
+Definition rec_map_agree (sm : assoc * assoc) : bool :=
+  let (s, m) := sm in
+  forallb (fun kv => match field_kind item_fields (fst kv) with
+                     | Some b => option_eqb val_eqb (get_key (fst kv) s) (Some (norm b (snd kv)))
+                     | None => true
+                     end) m
+  && forallb (fun kv => match get_key (fst kv) m, field_kind item_fields (fst kv) with
+                        | None, Some b => val_eqb (snd kv) (norm b None)
+                        | _, _ => true
+                        end) s.
+Definition table_row_of (r : row) : assoc := map (fun f => (fst f, col_value (fst f) r)) item_fields.
+Definition fill_spec_holds (c : case) : bool :=
+  (length (o_srecs c) =? length (o_find c))%nat && (length (o_mrecs c) =? length (o_find c))%nat
+  && forallb rec_map_agree (combine (o_srecs c) (o_mrecs c))
+  && match c_sel c with
+     | [] => list_eqb assoc_equiv (o_mrecs c) (map table_row_of (o_find c))
+     | _ => true
+     end.
+
 Definition check_case (c : case) : N :=
-  code_of (model_agrees c && extra_model_agrees c && more_model_agrees c)
-          (spec_holds c && extra_spec_holds c && more_spec_holds c).
+  code_of (model_agrees c && extra_model_agrees c && more_model_agrees c && fill_model_agrees c)
+          (spec_holds c && extra_spec_holds c && more_spec_holds c && fill_spec_holds c).
